@@ -127,6 +127,9 @@ def compare(calls, ref, other, what):
             continue          # function sets are compared by the "exports" sub-check
         if o[0] == "missing-module":
             raise Violation("C19:%s:import" % what, "%s: module for %s cannot be loaded: %s" % (what, tag, o[1]))
+        if o[0] == "nontermination":
+            raise Violation("C19:%s:nontermination:%s" % (what, fn), "%s: %s does not return (%s); the interpreted module returns normally"
+                            % (what, tag, o[1]))
         if o[0] == "error":
             raise Violation("C19:%s:raises:%s" % (what, fn), "%s: %s raised %s (the interpreted module returns normally)" % (what, tag, o[1]))
         bound = max(_mag(r[1]), max([_mag(x) for x in r[2]] + [0.0]), max([_mag(a) for a in args] + [0.0]), 1e-300)
@@ -152,8 +155,17 @@ def _run_external(calls, repo, flavour, tmp):
         with open(inp, "wb") as f:
             pickle.dump(calls, f)
     env = bootstrap.worker_env({"VERIF_REPO": repo})
-    r = subprocess.run([bootstrap.PYTHON, "-m", "pgv.kernels", "--run", inp, outp, "--flavour", flavour], cwd=bootstrap.VERIF,
-                       env=env, capture_output=True, text=True)
+    cmd = [bootstrap.PYTHON, "-m", "pgv.kernels", "--run", inp, outp, "--flavour", flavour]
+    try:
+        r = subprocess.run(cmd, cwd=bootstrap.VERIF, env=env, capture_output=True, text=True, timeout=240)
+    except subprocess.TimeoutExpired:
+        # never a verdict by itself: repeat under a deterministic line-event budget per call (interpreted code only;
+        # a hang inside compiled code cannot be counted and stays inconclusive)
+        try:
+            r = subprocess.run(cmd + ["--budget", "200000000"], cwd=bootstrap.VERIF, env=env, capture_output=True, text=True,
+                               timeout=3600)
+        except subprocess.TimeoutExpired:
+            raise RuntimeError("kernel runner (%s) did not finish even under the line budget (inconclusive)" % flavour)
     if r.returncode != 0 or not os.path.exists(outp):
         raise RuntimeError("kernel runner (%s, %s) failed: %s" % (flavour, repo, (r.stdout + r.stderr)[-1500:]))
     with open(outp, "rb") as f:
